@@ -24,7 +24,27 @@ func schemaComments(schema *schemaparser.Schema) []string {
 	return filtered
 }
 
+// unwrapJSONNumber turns the json.Number values used by the schema parsing
+// library into int64/float64 values, including within lists and objects.
 func unwrapJSONNumber(input any) any {
+	if list, ok := input.([]any); ok {
+		unwrapped := make([]any, 0, len(list))
+		for _, item := range list {
+			unwrapped = append(unwrapped, unwrapJSONNumber(item))
+		}
+
+		return unwrapped
+	}
+
+	if object, ok := input.(map[string]any); ok {
+		unwrapped := make(map[string]any, len(object))
+		for key, item := range object {
+			unwrapped[key] = unwrapJSONNumber(item)
+		}
+
+		return unwrapped
+	}
+
 	if val, ok := input.(json.Number); ok {
 		asInt, err := val.Int64()
 		if err == nil {
